@@ -390,6 +390,28 @@ fn recursive_alias_probe(st: &mut Stats) -> Vec<(String, String)> {
         st.evals += 1;
         st.bump("recursive_alias_probe");
         if r.result.is_ok() {
+            // nothing is replayed for an alias of the anchor under construction: the report is the count of the
+            // parser's own events
+            if let (Some(rep), Ok(m)) = (r.reports.first(), model::count(text, false)) {
+                let got = report_counts(rep);
+                if (got.events, got.nodes, got.aliases, got.scalar_bytes) != (m.total.events, m.total.nodes, m.total.aliases, m.total.scalar_bytes) {
+                    out.push((
+                        "report-differs-from-model".to_string(),
+                        format!("{name} ({text:?}): report {got:?}, the parser's events count {:?}", m.total),
+                    ));
+                }
+                for (cn, n) in [(Counter::Nodes, m.total.nodes), (Counter::Events, m.total.events)] {
+                    if let Some(r) = run_recursive(text, with_limit(cn, n)) {
+                        st.evals += 1;
+                        if r.result.is_err() {
+                            out.push((
+                                "false-rejection".to_string(),
+                                format!("{name} ({text:?}): {cn:?} usage is {n}, limit {n} rejected with {:?}", r.result),
+                            ));
+                        }
+                    }
+                }
+            }
             match r.reports.first() {
                 Some(rep) if rep.merge_keys == 1 => {}
                 Some(rep) => out.push((
@@ -863,12 +885,11 @@ pub fn exec(c: &BudgetCase, st: &mut Stats) -> Vec<Viol> {
                     st.bump("skipped.stream_ended_by_earlier_syntax_error");
                     continue;
                 }
-                // The statement is about the *number* of documents already read. Whether the iterator goes
-                // on after an earlier document has itself breached the budget is not promised (the docs say
-                // it ends), so histories in which an earlier document exceeds this limit are not compared.
+                // An earlier document that is itself over this limit fails on its own: the iterator goes on
+                // (it does so after every breach met inside a document; the documents that follow are
+                // within their limits and must not be lost with it).
                 if f_items.iter().take(pos).any(|x| matches!(x, Err(e) if !e.starts_with("not-a-budget-error"))) {
-                    st.bump("skipped.earlier_document_breaches_this_limit");
-                    continue;
+                    st.bump("fired.earlier_document_breaches_this_limit");
                 }
                 // the garde / validator iterators are separate copies of the plain one: same items
                 for which in 0..2 {
